@@ -187,6 +187,42 @@ def py_den(spec) -> dict[int, dict[str, Any]]:
 DEFAULT_FEATURES = {"tf": 5, "scatter": 3, "gather": 4, "dot": 2, "cart": 1, "cond": 2, "exec": 0, "loop": 0}
 
 
+# boundary workflows that every check runs first (index >= 10, empty scatter, broadcast, products, loop in a scatter)
+L12 = [3, 1, 4, 1, 5, 9, 2, 6, 5, 3, 5, 8]
+CORPUS = [
+    {"nports": 5, "sources": [{"port": 0, "value": L12}], "closed": [], "nodes": [
+        {"id": 0, "kind": "scatter", "ins": [0], "outs": [1, 2]},
+        {"id": 1, "kind": "tf", "ins": [1], "outs": [3], "fn": "add", "k": 1},
+        {"id": 2, "kind": "gather", "ins": [3, 2], "outs": [4], "depth": 1}]},
+    {"nports": 6, "sources": [{"port": 0, "value": L12}], "closed": [], "nodes": [
+        {"id": 0, "kind": "scatter", "ins": [0], "outs": [1, 2]},
+        {"id": 1, "kind": "exec", "ins": [1], "outs": [3], "k": 2},
+        {"id": 2, "kind": "tf", "ins": [3, 1], "outs": [4], "fn": "lin", "k": 0},
+        {"id": 3, "kind": "gather", "ins": [4, 2], "outs": [5], "depth": 1}]},
+    {"nports": 4, "sources": [{"port": 0, "value": []}], "closed": [], "nodes": [
+        {"id": 0, "kind": "scatter", "ins": [0], "outs": [1, 2]},
+        {"id": 1, "kind": "gather", "ins": [1, 2], "outs": [3], "depth": 1}]},
+    {"nports": 9, "sources": [{"port": 0, "value": [1, 2, 3]}, {"port": 1, "value": 7}], "closed": [], "nodes": [
+        {"id": 0, "kind": "scatter", "ins": [0], "outs": [2, 3]},
+        {"id": 1, "kind": "dot", "ins": [1, 2], "outs": [4, 5]},
+        {"id": 2, "kind": "tf", "ins": [4, 5], "outs": [6], "fn": "lin", "k": 1},
+        {"id": 3, "kind": "cond", "ins": [6], "outs": [7], "m": 2, "r": 0, "mode": "drop"},
+        {"id": 4, "kind": "gather", "ins": [7, 3], "outs": [8], "depth": 1}]},
+    {"nports": 11, "sources": [{"port": 0, "value": [1, 2]}, {"port": 1, "value": [10, 20, 30]}], "closed": [9], "nodes": [
+        {"id": 0, "kind": "scatter", "ins": [0], "outs": [2, 3]},
+        {"id": 1, "kind": "scatter", "ins": [1], "outs": [4, 5]},
+        {"id": 2, "kind": "cart", "ins": [2, 4], "outs": [6, 7]},
+        {"id": 3, "kind": "tf", "ins": [6, 7], "outs": [8], "fn": "lin", "k": 0},
+        {"id": 4, "kind": "gather", "ins": [8, 9], "outs": [10], "depth": 2}]},
+    {"nports": 7, "sources": [{"port": 0, "value": [2, 7, 4]}], "closed": [], "nodes": [
+        {"id": 0, "kind": "scatter", "ins": [0], "outs": [1, 2]},
+        {"id": 1, "kind": "tf", "ins": [1], "outs": [3], "fn": "add", "k": 3},
+        {"id": 2, "kind": "loop", "ins": [1, 3], "outs": [4], "k": 2},
+        {"id": 3, "kind": "gather", "ins": [4, 2], "outs": [5], "depth": 1},
+        {"id": 4, "kind": "tf", "ins": [5], "outs": [6], "fn": "sum", "k": 0}]},
+]
+
+
 def _type_list(t):
     return ("L", t)
 
